@@ -139,11 +139,22 @@ def stats_check(tr, fetches, metric, mode, fin, rows, end_seq):
             out.append(V("C17", "R5.count", tr, "overall count %d, %d results were handed to the loop" % (so["count"], len(handed)), end_seq))
         keys = set()
         for _, res in handed:
-            keys.update(k for k, v in res.items() if _num(v))
+            keys.update(k for k, v in res.items() if _num(v) or v == "NaN")
         for k in sorted(keys):
             xs = [res[k] for _, res in handed if k in res]
-            if not all(_num(x) for x in xs) or any(x == "NaN" for x in xs):
-                continue  # mixed / NaN: only count and the non-NaN optimum are demanded
+            if not all(_num(x) or x == "NaN" for x in xs):
+                continue  # mixed numeric / non-numeric values: only the count is demanded
+            if any(x == "NaN" for x in xs):
+                # NaN values never take part in the running extrema (the non-NaN optimum is demanded)
+                good = [x for x in xs if x != "NaN"]
+                if good and k in so["min"]:
+                    for nm, ev in (("min", min(good)), ("max", max(good))):
+                        got = so[nm].get(k)
+                        if not (isinstance(got, (int, float)) and _eq(got, ev, 1e-9)):
+                            out.append(V("C17", "R5.stat_nan", tr, "overall %s of %s is %r with NaN values reported, non-NaN %s is %r" % (
+                                nm, k, got, nm, ev), end_seq, stat=nm))
+                            break
+                continue
             try:
                 exp = {"min": min(xs), "max": max(xs), "sum": math.fsum(xs)}
             except OverflowError:
